@@ -27,10 +27,10 @@ def run(ctx):
         "client requests addressing oxia's own records (__oxia/commit-offset, notification, index and shadow keys) are outside the enumerated domain",
     ]
     # 1. laws of the model
-    r = ctx.tlc("OxiaDbMC", "db-c12-quick.cfg", label="laws")
+    r = ctx.tlc("OxiaDbMC", "db-c12-quick.cfg", label="laws", heap="4g")
     ctx.log("laws (3 requests x <=2 ops): %d distinct states, %d transitions" % (r.distinct, r.generated))
     if not quick:
-        r = ctx.tlc("OxiaDbMC", "db-c12-thorough.cfg", label="laws3")
+        r = ctx.tlc("OxiaDbMC", "db-c12-thorough.cfg", label="laws3", heap="4g")
         ctx.log("laws (pre-populated shards, 1 request x <=3 ops): %d distinct states, %d transitions" % (r.distinct, r.generated))
 
     binp = ctx.go_build("dbcheck")
